@@ -20,11 +20,11 @@ func init() {
 }
 
 type backupRec struct {
-	data    []byte
-	since   uint64
-	maxVer  uint64
-	lowTs   uint64 // every commit <= lowTs was applied before the backup began
-	highTs  uint64 // highest commit ts allocated when the backup returned
+	data   []byte
+	since  uint64
+	maxVer uint64
+	lowTs  uint64 // every commit <= lowTs was applied before the backup began
+	highTs uint64 // highest commit ts allocated when the backup returned
 }
 
 // streamList is the model of Stream.ToList / Backup's KeyToList at snapshot r.
